@@ -848,6 +848,7 @@ htp_status_t htp_connp_RES_HEADERS(htp_connp_t *connp) {
                 lfcrending = 0;
                 if (connp->out_next_byte == CR) {
                     // hanldes LF-CR sequence as end of line
+                    HTP_VERIF_TP(connp, connp->out_tx, "res_hdr_lfcr");
                     OUT_COPY_BYTE_OR_RETURN(connp);
                     lfcrending = 1;
                 }
@@ -1341,6 +1342,7 @@ int htp_connp_res_data(htp_connp_t *connp, const htp_time_t *timestamp, const vo
         htp_status_t rc;
 
         //handle gap
+        HTP_VERIF_STEP_BEGIN(connp, 1);
         if (data == NULL && len > 0) {
             if (connp->out_state == htp_connp_RES_BODY_IDENTITY_CL_KNOWN ||
                 connp->out_state == htp_connp_RES_BODY_IDENTITY_STREAM_CLOSE) {
@@ -1349,11 +1351,13 @@ int htp_connp_res_data(htp_connp_t *connp, const htp_time_t *timestamp, const vo
                 rc = htp_tx_state_response_complete_ex(connp->out_tx, 0);
             } else {
                 htp_log(connp, HTP_LOG_MARK, HTP_LOG_ERROR, 0, "Gaps are not allowed during this state");
+                HTP_VERIF_STEP_END(connp, 1, HTP_DECLINED);
                 return HTP_STREAM_CLOSED;
             }
         } else {
             rc = connp->out_state(connp);
         }
+        HTP_VERIF_STEP_END(connp, 1, rc);
         if (rc == HTP_OK) {
             if (connp->out_status == HTP_STREAM_TUNNEL) {
                 #ifdef HTP_DEBUG
